@@ -9,7 +9,8 @@ CHECKS = {
     "C15": [("R-GLOBAL", "r_global", "run_global", ("quick", "thorough"))],
     "C04": [("R-ALLOC.who", "r_global", "run_alloc_who", ("quick", "thorough")),
             ("R-TMP", "r_tmp", "run", ("quick", "thorough")),
-            ("R-ALIAS.mem", "r_alias", "run_mem", ("quick", "thorough"))],
+            ("R-ALIAS.mem", "r_alias", "run_mem", ("quick", "thorough")),
+            ("R-ALLOC.size", "r_alloc", "run", ("quick", "thorough"))],
     "C05": [("R-ALIAS", "r_alias", "run", ("quick", "thorough"))],
     "C06": [("R-TABLES.c06", "r_tables", "run_c06", ("quick", "thorough")),
             ("R-TABIDX.digit", "r_tables", "run_digit_index", ("quick", "thorough"))],
@@ -38,6 +39,7 @@ RULES = {
     "R-TABLES.c16": ("r_tables", "run_c16"),
     "R-TABLES.logic": ("r_tables", "run_logic"),
     "R-ABI": ("r_abi", "run"),
+    "R-ALLOC.size": ("r_alloc", "run"),
     "R-ALIAS": ("r_alias", "run"),
     "R-ALIAS.mem": ("r_alias", "run_mem"),
     "R-TABIDX.digit": ("r_tables", "run_digit_index"),
@@ -109,6 +111,11 @@ ASSUMPTIONS = {
               "type from the C prototypes in mpir.h / gmp-impl.h", "indirect jumps go to the jump table the code last took the address of, or to "
               "code labels held in the jump register; computed jumps without either are listed in spec/abi_out_of_domain.tsv",
               "decides register/flag/stack discipline only - NOT that a kernel computes the same limbs as the C routine"],
+    "R-ALLOC.size": ["struct invariants: block (z->_mp_d) holds z->_mp_alloc limbs (mpz), f->_mp_prec + 1 limbs (mpf), evaluated when the pointer is loaded "
+                     "or at function entry; strings from mp*_get_str (NULL, ...) are strlen + 1 bytes (manual)",
+                     "size agreement is equality of linear terms over value symbols; differing terms that involve a join symbol are undecided",
+                     "a pointer passed to a library callee is not an ownership transfer; stores into caller-reachable memory and returns are",
+                     "paths are partitioned on flag variables and on conditions over unmodified local scalars that are tested more than once"],
     "R-ALIAS": ["alias model of the manual: an output may be the same variable as any input of its type, two outputs are distinct, locals alias nothing; "
                 "static helpers inherit the aliasing their call sites in the unit can produce",
                 "public callees handle overlap between their own operands (the same rules applied to them)",
